@@ -617,5 +617,10 @@ func (sm *SeatManager) Next() error {
 		return ErrInsufficientNumberOfPlayers
 	}
 
+	// Waiting players have been let in: still nobody to play against
+	if sm.getPlayableSeatCount() < 2 {
+		return ErrInsufficientNumberOfPlayers
+	}
+
 	return sm.renewSeatStatus()
 }
